@@ -70,6 +70,10 @@ def jobs_for(tier):
         c = det(16, "c%d" % i) if i % 3 == 0 else []
         J.append({"fn": "hsalsa20", "key": det(32, "hsk%d" % i) if i else [255] * 32, "input": det(16, "hsi%d" % i) if i else [255] * 16, "const": c})
         J.append({"fn": "hchacha20", "key": det(32, "hck%d" % i) if i else [255] * 32, "input": det(16, "hci%d" % i) if i else [255] * 16, "const": c})
+    # supplied constants that are all zero, all 0xff, or zero in one word (absent constants mean sigma; zero constants do not)
+    for ci, c in enumerate([[0] * 16, [255] * 16, [0] * 4 + det(12, "cz1"), det(12, "cz2") + [0] * 4, list(b"expand 16-byte k")]):
+        J.append({"fn": "hsalsa20", "key": det(32, "hskz%d" % ci), "input": det(16, "hsiz%d" % ci), "const": c})
+        J.append({"fn": "hchacha20", "key": det(32, "hckz%d" % ci), "input": det(16, "hciz%d" % ci), "const": c})
     for n in range(0, 20):
         J.append({"fn": "increment", "msg": [255] * n})
         J.append({"fn": "increment", "msg": det(n, "inc")})
